@@ -140,7 +140,11 @@ func (ev *Eval) block(b *Block, env *Env) Value {
 	for _, s := range b.Stmts {
 		switch s.K {
 		case "let":
-			env.Set(s.Name, ev.expr(s.E, env))
+			// a new frame per let: a closure made earlier in this block keeps seeing the outer
+			// variable when a later let of the block reuses its name
+			v := ev.expr(s.E, env)
+			env = NewEnv(env)
+			env.Set(s.Name, v)
 		case "letd":
 			v := ev.expr(s.E, env)
 			t, ok := v.(*TupleV)
